@@ -25,6 +25,7 @@ namespace sim
         std::uint64_t hash       = 0;
         bool          nontrivial = false;
         std::size_t   ops        = 0;
+        bool          fatal = false; // the process cannot run further plans (parked threads): exit after reporting
         std::string   skip; // non-empty: the run was abandoned for a harness reason (never a verdict)
     };
 
